@@ -13,7 +13,7 @@ func template(r *vh.RNG) *Scenario {
 		scn.Mailbox = "GlobalOrderedLockFree"
 	}
 	tell := func(t, n int) Label { return Label{K: "tell", T: t, N: n} }
-	switch r.Intn(7) {
+	switch r.Intn(8) {
 	case 0:
 		// all-for-one: the root restarts ALL its children when A (token 1) fails; B (token 2) is healthy, has a child
 		// (token 3) and traffic in flight while it waits for that child during its restart
@@ -81,6 +81,25 @@ func template(r *vh.RNG) *Scenario {
 				{On: "P", N: 1, Inst: -1, Do: []Action{{K: "tell", T: 0, N: 2}}}}},
 		}
 		scn.Exts = []Label{{K: "spawn", T: 0, R: 0}, tell(1, 1), tell(1, 0), tell(1, 1), tell(1, 2), tell(1, 1), tell(0, 1)}
+	case 7:
+		// the OLD instance of a restarting actor spawns a child from its last handlers (OnTerminate / own OnTerminated run
+		// inside tryRestarted): the child is stopped at once but still has to be waited for when the restarted actor is
+		// terminated or the system shut down right afterwards
+		on := "T"
+		if r.Bool() {
+			on = "TS"
+		}
+		scn.Roles = []Role{
+			{Victim: "resume", Sup: []string{"restart", "restart"}, Rules: []Rule{{On: "L", N: -1, Inst: -1, Do: []Action{{K: "spawn", T: 1, R: 1}}}}},
+			{Rules: []Rule{{On: "P", N: 0, Inst: 0, Do: []Action{{K: "panic"}}}, {On: on, N: -1, Inst: 0, Do: []Action{{K: "spawn", T: 2, R: 2}}},
+				{On: "P", N: 1, Inst: -1, Do: []Action{{K: "tell", T: 2, N: 1}}}}},
+			{Victim: "resume", Rules: []Rule{{On: "L", N: -1, Inst: -1, Do: []Action{{K: "spawn", T: 3, R: 3}}}, {On: "T", N: -1, Inst: -1, Do: []Action{{K: "tell", T: 3, N: 0}}}}},
+			{Victim: "resume"},
+		}
+		scn.Exts = []Label{{K: "spawn", T: 0, R: 0}, tell(1, 0), tell(1, 1), {K: "term", T: 1, G: r.Bool()}, tell(2, 0), tell(1, 1)}
+		if r.Bool() {
+			scn.Exts = scn.Exts[:3] // straight to Shutdown
+		}
 	default:
 		// watch requests racing with a termination: two observers, one of them the parent
 		scn.Roles = []Role{
